@@ -65,7 +65,7 @@ impl Prop for C04 {
     }
 
     fn cases(tier: Tier) -> u64 {
-        tier.pick(12_000, 120_000)
+        tier.pick(12_000, 300_000)
     }
 
     fn strategy(tier: Tier) -> BoxedStrategy<Case> {
